@@ -89,7 +89,9 @@ class Counting(desper.Handle):
 def decode_op(t):
     sel, p = t
     kind = ('access', 'access', 'access', 'access', 'access', 'access', 'clear', 'clear', 'snapshot', 'switch',
-            'replace', 'orphan', 'failnext')[sel % 13]
+            'replace', 'orphan', 'failnext', 'bulk')[sel % 14]
+    if kind == 'bulk':
+        return ['bulk', p % 4]
     if kind == 'failnext':
         return ['failnext', p % 12]
     if kind == 'replace':
@@ -106,10 +108,12 @@ def decode_op(t):
 
 
 def strategy():
-    op = st.tuples(st.integers(0, 12), st.integers(0, 12 * 8 * 4 - 1)).map(decode_op)
+    op = st.tuples(st.integers(0, 13), st.integers(0, 12 * 8 * 4 - 1)).map(decode_op)
     return st.fixed_dictionaries({
         'kinds': st.lists(st.integers(0, len(KINDS) - 1), min_size=5, max_size=5),
-        'ops': worldops.chunked(op, 40)})
+        'ops': worldops.chunked(op, 40),
+        # scale: 0, or the number of further handles a "bulk" operation creates in the tree and loads
+        'amp': worldops.size_amp(none=50, sizes=(70, 130, 300, 1100))})
 
 
 class Run:
@@ -219,6 +223,28 @@ class Run:
         self.flags['handle_replaced_in_the_map'] += 1
         if self.m_cached[new_ix]:
             self.flags['cached_handle_replaced_in_the_map'] += 1
+
+    def op_bulk(self, how):
+        """many other resources get loaded (a big level): nobody cleared the handles loaded before, they stay cached"""
+        n = self.case.get('amp') or 0
+        if not n or getattr(self, 'bulk_done', False):
+            return
+        self.bulk_done = True
+        self.bulk = []
+        for k in range(n):
+            h = Counting(self, 0, object)
+            h.load = (lambda hh=h: ('bulk resource', id(hh)))      # not counted in the books of handle 0
+            self.root['bulk/h%d' % k] = h
+            self.bulk.append(h)
+        try:
+            got = [(h() if how % 2 == 0 else self.root['bulk/h%d' % k]) for k, h in enumerate(self.bulk)]
+            again = [h() for h in self.bulk]
+        except Exception as exc:
+            self.viol('access_raised', handle='bulk', how='call', exception=repr(exc))
+        if any(a is not b for a, b in zip(got, again)):
+            self.viol('access_returned_a_different_object', handle='bulk', how='call', value='tuple')
+        self.snapshot = None
+        self.flags['bulk_load'] += 1
 
     def op_failnext(self, sel):
         """the next load() of that handle raises (once)"""
